@@ -96,10 +96,88 @@ class Emitter(object):
         p = self.v["switch"] if self.v["switch"] is not None else M["switch"]
         return p
 
+    # ---- guard expression as C++ code over hooks (basic / row2 front-ends: the expression lives in user code)
+    def guard_code(self, e):
+        if e[0] == "leaf":
+            return "sim::hook_guard(%d, e, f)" % e[1]
+        if e[0] == "not":
+            return "!(%s)" % self.guard_code(e[1])
+        op = " && " if e[0] == "and" else " || "
+        return "(%s%s%s)" % (self.guard_code(e[1]), op, self.guard_code(e[2]))
+
+    def guard_puml(self, e, top=True):
+        """PlantUML guard text with C++ precedence, minimal parentheses"""
+        if e[0] == "leaf":
+            return "g%d" % e[1]
+        if e[0] == "not":
+            inner = self.guard_puml(e[1], False)
+            return "!" + (inner if e[1][0] == "leaf" else "(" + inner + ")")
+        if e[0] == "and":
+            parts = []
+            for x in e[1:]:
+                t = self.guard_puml(x, False)
+                parts.append("(" + t + ")" if x[0] == "or" else t)
+            return " && ".join(parts)
+        return " || ".join(self.guard_puml(x, False) for x in e[1:])
+
+    def row_basic(self, R):
+        """basic (member function pointer) rows; the functions are emitted by emit_row_functions"""
+        n = self.n
+        M = n.machines[R["machine"]]
+        fe = self.fe(M)
+        ev = self.trigger_cpp(R)
+        rid = R["id"]
+        has_a = bool(R["actions"])
+        has_g = R["guard"] is not None
+        r2 = self.v["front"] == "R2"
+        owner = self.state_type(R["src"]) if r2 else fe
+        a = "&%s::act_r%d" % (owner, rid)
+        g = "&%s::grd_r%d" % (owner, rid)
+        if r2:
+            a = "%s, %s" % (owner, a)
+            g = "%s, %s" % (owner, g)
+        sfx = "2" if r2 else ""
+        srct = self.state_type(R["src"])
+        if R["tkind"] == TK_NONE:
+            kind = {(True, True): "irow", (True, False): "a_irow", (False, True): "g_irow", (False, False): "_irow"}[(has_a, has_g)]
+            args = [srct, ev] + ([a] if has_a else []) + ([g] if has_g else [])
+        else:
+            kind = {(True, True): "row", (True, False): "a_row", (False, True): "g_row", (False, False): "_row"}[(has_a, has_g)]
+            args = [srct, ev, self.state_type(R["tgts"][0])] + ([a] if has_a else []) + ([g] if has_g else [])
+        if r2 and kind != "_irow":
+            return "msm::front::%s%s<%s >" % (kind, sfx, ", ".join(args))
+        return "%s<%s >" % (kind, ", ".join(args))
+
+    def emit_row_function_decls(self, owner_rows):
+        w = self.w
+        for R in owner_rows:
+            ev = self.trigger_cpp(R)
+            if R["actions"]:
+                w("  void act_r%d(%s const& e);" % (R["id"], ev))
+            if R["guard"] is not None:
+                w("  bool grd_r%d(%s const& e);" % (R["id"], ev))
+
+    def emit_row_function_defs(self, M):
+        n, w = self.n, self.w
+        be = self.be(M)
+        r2 = self.v["front"] == "R2"
+        for rid in M["rows"]:
+            R = n.rows[rid]
+            ev = self.trigger_cpp(R)
+            owner = self.state_type(R["src"]) if r2 else self.fe(M)
+            get_f = "%s& f = *static_cast<%s*>(sim_fsm);" % (be, be) if r2 else "%s& f = static_cast<%s&>(*this);" % (be, be)
+            if R["actions"]:
+                body = " ".join("sim::hook_action(%d, e, f);" % a for a in R["actions"])
+                w("inline void %s::act_r%d(%s const& e) { %s %s }" % (owner, R["id"], ev, get_f, body))
+            if R["guard"] is not None:
+                w("inline bool %s::grd_r%d(%s const& e) { %s return %s; }" % (owner, R["id"], ev, get_f, self.guard_code(R["guard"])))
+
     # ---- rows (functor front-end)
     def row_cpp(self, R):
         n = self.n
         M = n.machines[R["machine"]]
+        if self.v["front"] in ("R", "R2") and R["table"] == 0:
+            return self.row_basic(R)
         ev = self.trigger_cpp(R)
         act = self.actions_cpp(R["actions"])
         grd = guard_cpp(R["guard"]) if R["guard"] else "msm::front::none"
@@ -167,6 +245,7 @@ class Emitter(object):
         w("#include <boost/fusion/include/mpl.hpp>")
         w("#include <boost/msm/front/state_machine_def.hpp>")
         w("#include <boost/msm/front/functor_row.hpp>")
+        w("#include <boost/msm/front/row2.hpp>")
         w("#include <boost/msm/front/operator.hpp>")
         w("#include <boost/msm/front/history_policies.hpp>")
         self.ser = bool(n.spec.get("serialize", False)) and not self.mp
@@ -183,6 +262,13 @@ class Emitter(object):
         w('#include "sim/imachine.hpp"')
         w('#include "sim/adapter_util.hpp"')
         w("namespace msm = boost::msm;")
+        if v["front"] == "P":
+            self.emit_puml_front(ns)
+            w("namespace %s {" % ns)
+            self.emit_adapter()
+            w("} // namespace %s" % ns)
+            self.emit_global()
+            return "\n".join(x for x in self.out if x is not None) + "\n"
         w("namespace %s {" % ns)
         self.emit_events()
         self.emit_behaviours()
@@ -317,7 +403,16 @@ class Emitter(object):
         elif k == SK["exit_pt"]:
             bases = "msm::front::exit_pseudo_state<%s >" % n.events[S["exit_event"]]["name"]
         w("struct %s : %s {" % (S["name"], bases))
-        w("  SIM_STATE_BODY(%d)" % S["index"])
+        if self.v["front"] == "R2":
+            # row2: guards / actions are member functions of the source state; the state remembers its machine
+            w("  void* sim_fsm = nullptr;")
+            w("  template <class E, class F> void on_entry(E const& e, F& f) { sim_fsm = &f; sim::hook_entry(%d, e, f, this); }" % S["index"])
+            w("  template <class E, class F> void on_exit(E const& e, F& f) { sim::hook_exit(%d, e, f, this); }" % S["index"])
+            w("  static constexpr int SIM_SITE = %d; int sim_data = 0;" % S["index"])
+            w("  template <class Ar> void serialize(Ar& ar, const unsigned int) { ar & sim_data; }")
+            self.emit_row_function_decls([n.rows[r] for r in n.machines[S["machine"]]["rows"] if n.rows[r]["src"] == S["index"]])
+        else:
+            w("  SIM_STATE_BODY(%d)" % S["index"])
         if S["has_data"]:
             w("  typedef int do_serialize;")
         if S["flags"]:
@@ -350,6 +445,8 @@ class Emitter(object):
             if ps["has_data"]:
                 w("  typedef int do_serialize;")
         w("  typedef %s initial_state;" % self.lst([self.state_type(r[0]) for r in M["regions"]]))
+        if self.v["front"] == "R":
+            self.emit_row_function_decls([n.rows[r] for r in M["rows"]])
         w("  typedef %s transition_table;" % self.lst([self.row_cpp(n.rows[r]) for r in M["rows"]]))
         if M["irows"]:
             w("  typedef %s internal_transition_table;" % self.lst([self.row_cpp(n.rows[r]) for r in M["irows"]]))
@@ -387,6 +484,159 @@ class Emitter(object):
             if v["queue"] == "circ":
                 args.append("msm::back::queue_container_circular")
             w("typedef msmb::state_machine<%s > %s;" % (", ".join(args), be))
+        if self.v["front"] in ("R", "R2"):
+            self.emit_row_function_defs(M)
+
+    def emit_puml_front(self, ns):
+        """PlantUML front-end: the machine is a text; events / actions / guards / states / flags are looked up by name.
+        Names get a per-variant suffix so that the explicit specialisations of different variants never collide."""
+        n, v, w = self.n, self.v, self.w
+        import random
+        import zlib
+        rnd = random.Random(zlib.crc32((n.name + "/" + self.vname + "/" + str(n.spec.get("puml_seed", 0))).encode()))
+        if len(n.machines) != 1:
+            raise ValueError("the PlantUML variant supports flat machines only")
+        M = n.machines[0]
+        sfx = "_" + ns
+        self.puml_sfx = sfx
+        w("#include <boost/msm/front/puml/puml.hpp>")
+        w("namespace %s { struct EvBase { int32_t occ; uint32_t chk; }; }" % ns)
+        w("#define SIM_STATE_BODY(SITE) \\")
+        w("  template <class E, class F> void on_entry(E const& e, F& f) { sim::hook_entry(SITE, e, f, this, false); } \\")
+        w("  template <class E, class F> void on_exit(E const& e, F& f) { sim::hook_exit(SITE, e, f, this, false); } \\")
+        w("  static constexpr int SIM_SITE = SITE; int sim_data = 0;")
+        w("namespace boost::msm::front::puml {")
+        for i, e in enumerate(n.events):
+            w('template <> struct Event<by_name("%s%s")> : %s::EvBase {' % (e["name"], sfx, ns))
+            w("  static constexpr int SIM_EV = %d;" % i)
+            w("  Event() { occ = sim::OCC_UNKNOWN; chk = 0; }")
+            w("  explicit Event(int32_t o) { occ = o; chk = sim::chk_of_occ(o); }")
+            w("};")
+        for g in range(n.nleaves):
+            w('template <> struct Guard<by_name("g%d%s")> {' % (g, sfx))
+            w("  template <class E, class F, class S, class T> bool operator()(E const& e, F& f, S&, T&) const { return sim::hook_guard(%d, e, f); }" % g)
+            w("};")
+        for a in range(n.nactions):
+            w('template <> struct Action<by_name("a%d%s")> {' % (a, sfx))
+            w("  template <class E, class F, class S, class T> void operator()(E const& e, F& f, S&, T&) const { sim::hook_action(%d, e, f); }" % a)
+            w("};")
+        for f in n.flags:
+            w('template <> struct Flag<by_name("%s%s")> {};' % (f, sfx))
+        # states: even index -> explicit specialisation with hooks; odd index -> entry / exit / flag text lines
+        self.puml_text_states = set()
+        for sidx in M["states"]:
+            S = n.states[sidx]
+            if S["kind"] not in (SK["simple"], SK["terminate"]):
+                raise ValueError("PlantUML variant: only simple / terminate states")
+            by_text = (sidx % 2 == 1) or S["kind"] == SK["terminate"]
+            if by_text:
+                self.puml_text_states.add(sidx)
+                w('template <> struct Action<by_name("en_%s%s")> {' % (S["name"], sfx))
+                w("  template <class E, class F, class S, class T> void operator()(E const& e, F& f, S& s, T&) const { sim::hook_entry(%d, e, f, &s, false); }" % sidx)
+                w("};")
+                w('template <> struct Action<by_name("ex_%s%s")> {' % (S["name"], sfx))
+                w("  template <class E, class F, class S, class T> void operator()(E const& e, F& f, S& s, T&) const { sim::hook_exit(%d, e, f, &s, false); }" % sidx)
+                w("};")
+            else:
+                w('template <> struct State<by_name("%s%s")> : public boost::msm::front::state<> {' % (S["name"], sfx))
+                w("  SIM_STATE_BODY(%d)" % sidx)
+                if S["flags"]:
+                    w("  typedef boost::fusion::vector<%s > flag_list;" % ", ".join('Flag<by_name("%s%s")>' % (f, sfx) for f in S["flags"]))
+                w("};")
+        w("} // namespace boost::msm::front::puml")
+        w("namespace %s {" % ns)
+        w("using namespace boost::msm::front::puml;")
+        for e in n.events:
+            w('using %s = Event<by_name("%s%s")>;' % (e["name"], e["name"], sfx))
+        for f in n.flags:
+            w('using %s = Flag<by_name("%s%s")>;' % (f, f, sfx))
+        w("template <class Any, class F> inline sim::EvInfo sim_probe_any(const Any& a, F*) {")
+        w("  sim::EvInfo i; using boost::any_cast; using std::any_cast;")
+        for k, e in enumerate(n.events):
+            w("  if (auto p = any_cast<%s>(&a)) { i.occ = p->occ; i.chk = p->chk; i.type = i.dyn = %d; return i; }" % (e["name"], k))
+        w("  return i;")
+        w("}")
+        # the text, with seeded formatting noise
+        def sp(lo=1, hi=4):
+            return "".join(rnd.choice([" ", " ", "\t"]) for _ in range(rnd.randint(lo, hi)))
+        def arrow():
+            return "-" * rnd.randint(1, 4) + ">"
+        lines = []
+        for reg in M["regions"]:
+            lines.append("[*]%s%s%s%s%s" % (sp(0, 2), arrow(), sp(0, 3), n.states[reg[0]]["name"] + sfx, sp(0, 2)))
+        body = []
+        for rid in M["rows"]:
+            R = n.rows[rid]
+            src = n.states[R["src"]]["name"] + sfx
+            tgt = src if R["tkind"] == TK_NONE else n.states[R["tgts"][0]]["name"] + sfx
+            if R["trigger"] == TRIG_COMPLETION:
+                ev = ""
+            elif R["trigger"] == TRIG_KLEENE:
+                ev = "*"
+            else:
+                ev = n.events[R["trigger"]]["name"] + sfx
+            if R["tkind"] == TK_NONE:
+                ev = "-" + ev
+            acts = ("," + sp(0, 2)).join(("defer" if a < 0 else "a%d%s" % (a, sfx)) for a in R["actions"])
+            # the guard text as written in the spec (parentheses included), leaves renamed
+            import re as _re
+            grd = _re.sub(r"g(\d+)", lambda m: "g%s%s" % (m.group(1), sfx), R["guard_text"]) if R["guard"] else ""
+            apart = ("/" + sp(0, 2) + acts) if acts else ""
+            gpart = ("[" + sp(0, 1) + grd + sp(0, 1) + "]") if grd else ""
+            parts = [apart, gpart]
+            if apart and gpart and rnd.random() < 0.5:
+                parts = [gpart, apart]          # the relative order of '/ actions' and '[guard]' is free
+            line = "%s%s%s%s%s%s:%s%s%s%s%s%s" % (src, sp(), arrow(), sp(), tgt, sp(), sp(0, 2), ev, sp(), parts[0], sp(), parts[1])
+            body.append(line.rstrip())
+        extra = []
+        for sidx in M["states"]:
+            S = n.states[sidx]
+            nm = S["name"] + sfx
+            if sidx in self.puml_text_states:
+                extra.append("%s%s:%sentry%sen_%s" % (nm, sp(), sp(), sp(), nm))
+                extra.append("%s%s:%sexit%sex_%s" % (nm, sp(), sp(), sp(), nm))
+                for f in S["flags"]:
+                    extra.append("%s%s:%sflag%s%s%s" % (nm, sp(), sp(), sp(), f, sfx))
+            if S["kind"] == SK["terminate"]:
+                extra.append("%s%s%s%s[*]" % (nm, sp(), arrow(), sp()))
+        # rows keep their order (it is the priority); state lines are sprinkled in between
+        allrows = list(body)
+        for x in extra:
+            allrows.insert(rnd.randint(0, len(allrows)), x)
+        text = ["@startuml " + M["name"], "skinparam linetype polyline", "state " + M["name"] + "{"] + lines + allrows + ["}", "@enduml"]
+        fe = self.fe(M)
+        w("struct %s : msm::front::state_machine_def<%s > {" % (fe, fe))
+        w("  static constexpr int SIM_MI = 0;")
+        w("  static constexpr int SIM_NR = %d;" % len(M["regions"]))
+        w("  static constexpr bool SIM_CAN_DEFER = %s;" % ("true" if (self.mp or M["has_deferred"]) else "false"))
+        w("  template <class E, class F> void on_entry(E const& e, F& f) { sim::hook_entry(%d, e, f, this, true); }" % len(n.states))
+        w("  template <class E, class F> void on_exit(E const& e, F& f) { sim::hook_exit(%d, e, f, this, true); }" % len(n.states))
+        w("  static constexpr int SIM_SITE = %d;" % len(n.states))
+        w('  BOOST_MSM_PUML_DECLARE_TABLE(R"(')
+        for t in text:
+            w("    " + t)
+        w('  )")')
+        if M["activate_deferred"]:
+            w("  typedef int activate_deferred_events;")
+        pol = self.switch_policy(M)
+        if pol != 0:
+            w("  typedef msm::%s active_state_switch_policy;" % SWITCH_NAMES[pol])
+        w("  template <class E, class F> void no_transition(E const& e, F& f, int state) { sim::hook_no_transition(e, f, state); }")
+        w("  template <class E, class F> void exception_caught(E const& e, F& f, std::exception&) { sim::hook_exception_caught(e, f); }")
+        w("};")
+        be = self.be(M)
+        if self.mp:
+            w("typedef sim::MpMachine<%s, SimConfig> %s;" % (fe, be))
+        else:
+            args = [fe]
+            if v["policy"] == "ct":
+                args.append("msm::back::favor_compile_time")
+            w("typedef msmb::state_machine<%s > %s;" % (", ".join(args), be))
+        w("} // namespace %s" % ns)
+
+    def guard_puml_sfx(self, e, sfx):
+        import re
+        return re.sub(r"g(\d+)", lambda m: "g%s%s" % (m.group(1), sfx), self.guard_puml(e))
 
     def emit_adapter(self):
         n, v, w = self.n, self.v, self.w
@@ -495,7 +745,7 @@ class Emitter(object):
         w("    }")
         w("    return -1;")
         w("  }")
-        if self.mp:
+        if self.mp and v["front"] != "P":
             w("  int state_active(int g) const override {")
             w("    switch (g) {")
             for S in n.states:
@@ -504,7 +754,7 @@ class Emitter(object):
             w("    }")
             w("    return -1;")
             w("  }")
-        if self.mp:
+        if self.mp and v["front"] != "P":
             w("  bool visit(int mode, std::vector<int>& out) override {")
             w("    auto vis = [&out](auto& st) { out.push_back(std::remove_cvref_t<decltype(st)>::SIM_SITE); };")
             w("    switch (mode) {")
@@ -515,7 +765,7 @@ class Emitter(object):
             w("    }")
             w("    return true;")
             w("  }")
-        else:
+        elif not self.mp and v["front"] != "P":
             w("  int state_by_id(int mach, int id) const override {")
             w("    switch (mach) {")
             for M in n.machines:
